@@ -282,7 +282,10 @@ def match_ledger(P, sites, auto, ledger, all_sites=None):
     out = {}
     for s in sites:
         if s["key"] not in auto and s["key"] in ledger:
-            out[s["key"]] = (ledger[s["key"]], "exact")
+            e_ = ledger[s["key"]]
+            if e_.get("ty") and s.get("ty") and e_["ty"] != s["ty"]:
+                continue            # the audited operation was carried out in another integer type: the audit does not cover this one
+            out[s["key"]] = (e_, "exact")
     taken = {id(e) for e, _ in out.values()}
     free = [e for k, e in ledger.items() if id(e) not in taken]      # the entry's own site is gone, or is now bounded automatically
     reach = {}
@@ -301,7 +304,7 @@ def match_ledger(P, sites, auto, ledger, all_sites=None):
             continue
         kw = f"|{s['kind']}:{s['what']}#"
         for e in free:
-            if kw in e["key"] and related(e["key"].split("|")[0], s["fn"]):
+            if kw in e["key"] and related(e["key"].split("|")[0], s["fn"]) and not (e.get("ty") and s.get("ty") and e["ty"] != s["ty"]):
                 out[s["key"]] = (e, "migrated from " + e["key"])
                 free.remove(e)
                 break
